@@ -39,7 +39,7 @@ theorem mid_drain_arrival_refused (s s' : St) (h : Step' s s') (hu : s.upd ≠ .
     (q : Req) (hq : q ∈ s'.reqs) (hnew : ∀ x ∈ s.reqs, x.id ≠ q.id) : q.phase = .refused := by
   cases h with
   | openConn c => exact absurd rfl (hnew q hq)
-  | admit r c cl hu' _ _ => exact absurd hu' hu
+  | admitReq r c cl hu' _ _ => exact absurd hu' hu
   | refuse r c cl _ _ _ =>
     simp only [List.mem_cons] at hq
     rcases hq with rfl | hq
@@ -68,7 +68,7 @@ theorem only_active_requests_reach_backend (s s' : St) (h : Step' s s') (e : Nat
     · exact ⟨q, hq, ha, rfl⟩
     · exact absurd he hn
   | openConn c => exact absurd he hn
-  | admit r c cl _ _ _ => exact absurd he hn
+  | admitReq r c cl _ _ _ => exact absurd he hn
   | refuse r c cl _ _ _ => exact absurd he hn
   | timeout x _ _ => exact absurd he hn
   | finish x _ _ => exact absurd he hn
@@ -94,7 +94,7 @@ theorem drain_does_not_grow (s s' : St) (h : Step' s s') (hu : s.upd = .waiting)
     (actives s').length ≤ (actives s).length := by
   cases h with
   | openConn c => exact Nat.le_refl _
-  | admit r c cl hu' _ _ => rw [hu] at hu'; exact absurd hu' (by decide)
+  | admitReq r c cl hu' _ _ => rw [hu] at hu'; exact absurd hu' (by decide)
   | refuse r c cl _ _ _ => simp [actives, List.filter_cons]
   | backend x _ _ => exact Nat.le_refl _
   | timeout x _ _ =>
@@ -134,7 +134,7 @@ theorem limiter_in_force_is_used (s s' : St) (h : Step' s s') (q : Req) (hq : q 
     (hnew : ∀ x ∈ s.reqs, x.id ≠ q.id) : q.limiterUsed = s.limiter := by
   have hp : Gen.connLoopLimiterPerRequest = true := by decide
   cases h with
-  | admit r c cl _ _ _ =>
+  | admitReq r c cl _ _ _ =>
     simp only [List.mem_cons] at hq
     rcases hq with rfl | hq
     · simp [hp]
@@ -170,7 +170,7 @@ theorem captured_limiter_counterexample :
   have r3 : Reach false s3 := Reach.step _ _ r2 (Step.updAcquire s2 rfl rfl)
   let s4 : St := { s3 with policy := 1, limiter := 7, upd := .idle }
   have r4 : Reach false s4 := Reach.step _ _ r3 (Step.updEnd s3 7 rfl)
-  have r5 := Reach.step _ _ r4 (Step.admit (perRequest := false) s4 5 1 0 rfl (by simp [s4, s3, s2, s1]) (by simp [s4, s3, s2, s1, init]))
+  have r5 := Reach.step _ _ r4 (Step.admitReq (perRequest := false) s4 5 1 0 rfl (by simp [s4, s3, s2, s1]) (by simp [s4, s3, s2, s1, init]))
   exact ⟨_, r5, _, List.mem_cons_self .., by decide⟩
 
 end Props.C16
